@@ -29,7 +29,7 @@ ASSUMPTIONS = c02.ASSUMPTIONS + [
 ]
 BUDGET = {
     "quick": {"shards": 16, "examples": 5, "wall": 120},
-    "thorough": {"shards": 16, "examples": 40, "wall": 1200},
+    "thorough": {"shards": 16, "examples": 400, "wall": 900},
 }
 
 
